@@ -28,6 +28,7 @@ func (in *inliner) normalizeCallShapes(pkgs []*packages.Package, excluded func(s
 			}
 			n := &normCtx{in: in, pkg: pk, file: f}
 			eachList(f, n.goOfNew)
+			eachList(f, n.switchToIf)
 			eachList(f, n.splitShortCircuit)
 			eachList(f, n.hoistFirstCall)
 		}
@@ -258,7 +259,7 @@ func (n *normCtx) hoistFirstCall(s ast.Stmt) []ast.Stmt {
 			return keep
 		}
 	}
-	if !n.isNewCallee(call) {
+	if st := n.in.calleeOf(n.pkg, call); st == nil || st.c == nil {
 		return keep
 	}
 	// single-valued calls only
@@ -333,4 +334,108 @@ func (n *normCtx) splitShortCircuit(s ast.Stmt) []ast.Stmt {
 	n.in.dirty[n.file] = true
 	n.in.res.Normalized = append(n.in.res.Normalized, fmt.Sprintf("short-circuit condition at %s written as its evaluation", n.in.fset.Position(pos)))
 	return []ast.Stmt{def, second, s}
+}
+
+// switchToIf: a switch without a tag one of whose case expressions calls a new
+// function is written as the if / else-if chain it stands for (cases are
+// tried from top to bottom, the default last), so that the call stands in a
+// condition the inliner handles. Switches whose clauses break out of the
+// switch or fall through are left alone.
+func (n *normCtx) switchToIf(s ast.Stmt) []ast.Stmt {
+	keep := []ast.Stmt{s}
+	sw, ok := s.(*ast.SwitchStmt)
+	if !ok || sw.Tag != nil || sw.Init != nil || len(sw.Body.List) == 0 {
+		return keep
+	}
+	hasNew := false
+	for _, cl := range sw.Body.List {
+		for _, e := range cl.(*ast.CaseClause).List {
+			ast.Inspect(e, func(m ast.Node) bool {
+				switch x := m.(type) {
+				case *ast.FuncLit:
+					return false
+				case *ast.CallExpr:
+					if n.isNewCallee(x) {
+						hasNew = true
+					}
+				}
+				return !hasNew
+			})
+		}
+	}
+	if !hasNew {
+		return keep
+	}
+	// no break that targets this switch, no fallthrough
+	bad := false
+	var scan func(node ast.Node, inner bool)
+	scan = func(node ast.Node, inner bool) {
+		ast.Inspect(node, func(x ast.Node) bool {
+			if bad || x == nil {
+				return false
+			}
+			switch y := x.(type) {
+			case *ast.FuncLit:
+				return false
+			case *ast.BranchStmt:
+				if y.Tok == token.FALLTHROUGH || (y.Tok == token.BREAK && y.Label == nil && !inner) {
+					bad = true
+				}
+			case *ast.ForStmt:
+				scan(y.Body, true)
+				return false
+			case *ast.RangeStmt:
+				scan(y.Body, true)
+				return false
+			case *ast.SwitchStmt:
+				scan(y.Body, true)
+				return false
+			case *ast.TypeSwitchStmt:
+				scan(y.Body, true)
+				return false
+			case *ast.SelectStmt:
+				scan(y.Body, true)
+				return false
+			}
+			return true
+		})
+	}
+	for _, cl := range sw.Body.List {
+		for _, st := range cl.(*ast.CaseClause).Body {
+			scan(st, false)
+		}
+	}
+	if bad {
+		return keep
+	}
+	pos := sw.Pos()
+	var def *ast.CaseClause
+	var first, last *ast.IfStmt
+	for _, cl := range sw.Body.List {
+		cc := cl.(*ast.CaseClause)
+		if cc.List == nil {
+			def = cc
+			continue
+		}
+		cond := cc.List[0]
+		for _, e := range cc.List[1:] {
+			cond = &ast.BinaryExpr{X: cond, OpPos: pos, Op: token.LOR, Y: e}
+		}
+		ifs := &ast.IfStmt{If: cc.Pos(), Cond: cond, Body: &ast.BlockStmt{Lbrace: cc.Colon, List: cc.Body, Rbrace: cc.End()}}
+		if first == nil {
+			first = ifs
+		} else {
+			last.Else = ifs
+		}
+		last = ifs
+	}
+	if first == nil {
+		return keep
+	}
+	if def != nil {
+		last.Else = &ast.BlockStmt{Lbrace: def.Colon, List: def.Body, Rbrace: def.End()}
+	}
+	n.in.dirty[n.file] = true
+	n.in.res.Normalized = append(n.in.res.Normalized, fmt.Sprintf("switch without a tag at %s written as an if chain", n.in.fset.Position(pos)))
+	return []ast.Stmt{first}
 }
